@@ -1706,102 +1706,198 @@ func vfExhaustive(out *zzverif.Out, depth int, configs []vfConfig) {
 	}
 }
 
-// ------------------------------------------------------------------ EncoderCache (L2 monitor only)
+// ------------------------------------------------------------------ EncoderCache
 
-// vfEncoder drives the real EncoderCache (position independent, single sequence) against a tiny
-// shadow: what Get returns per layer is what was last Put there, the mask is nil, EncoderCached()
-// is true exactly when an encoder output was stored by a real (non-reserve) pass and its position
-// has not been removed since, so a caller never reuses the output of a removed input.
-func vfEncoder(out *zzverif.Out, r *zzverif.Rng) {
-	permV := r.Chance(1, 2)
+// An encoder history is  enc <permV> <nops> op*  with
+//   S n base idx reserve   StartForward of n tokens at positions base.., one image at index idx
+//   P id                   Put of data `id` on every layer
+//   R begin end            Remove(0, begin, end)
+// Observation after every op (L1, oracle command `enc`): EncoderCached, encoderPos, what Get returns per layer.
+type vfEncOp struct {
+	kind       byte
+	a, b, c, d int
+}
+
+func vfEncLine(permV bool, ops []vfEncOp) string {
+	var sb strings.Builder
+	pv := 0
+	if permV {
+		pv = 1
+	}
+	fmt.Fprintf(&sb, "enc %d %d", pv, len(ops))
+	for _, o := range ops {
+		switch o.kind {
+		case 'S':
+			fmt.Fprintf(&sb, " S %d %d %d %d", o.a, o.b, o.c, o.d)
+		case 'P':
+			fmt.Fprintf(&sb, " P %d", o.a)
+		case 'R':
+			fmt.Fprintf(&sb, " R %d %d", o.a, o.b)
+		}
+	}
+	return sb.String()
+}
+
+func vfEncParse(line string) (bool, []vfEncOp) {
+	f := strings.Fields(line)
+	p := 1
+	next := func() int {
+		v, err := strconv.Atoi(f[p])
+		if err != nil {
+			panic(err)
+		}
+		p++
+		return v
+	}
+	permV := next() != 0
+	n := next()
+	var ops []vfEncOp
+	for i := 0; i < n; i++ {
+		k := f[p]
+		p++
+		switch k {
+		case "S":
+			ops = append(ops, vfEncOp{kind: 'S', a: next(), b: next(), c: next(), d: next()})
+		case "P":
+			ops = append(ops, vfEncOp{kind: 'P', a: next()})
+		case "R":
+			ops = append(ops, vfEncOp{kind: 'R', a: next(), b: next()})
+		}
+	}
+	return permV, ops
+}
+
+func vfEncGen(r *zzverif.Rng) (bool, []vfEncOp) {
+	var ops []vfEncOp
+	id := 0
+	for step := r.Range(3, 14); step > 0; step-- {
+		if r.Chance(2, 3) {
+			n := r.Range(1, 4)
+			res := 0
+			if r.Chance(1, 5) {
+				res = 1
+			}
+			ops = append(ops, vfEncOp{kind: 'S', a: n, b: r.Range(0, 20), c: r.Intn(n), d: res})
+			if r.Chance(4, 5) {
+				id++
+				ops = append(ops, vfEncOp{kind: 'P', a: id})
+			}
+		} else {
+			bgn := r.Range(0, 22)
+			end := bgn + r.Range(0, 6)
+			if r.Chance(1, 3) {
+				end = math.MaxInt32
+			}
+			ops = append(ops, vfEncOp{kind: 'R', a: bgn, b: end})
+		}
+	}
+	return r.Chance(1, 2), ops
+}
+
+// vfEncExec drives the real EncoderCache (position independent, single sequence).  L2 (independent
+// shadow): what Get returns per layer is what was last Put there, the mask is nil, EncoderCached() is
+// true exactly when an encoder output was stored by a real (non-reserve) pass and its position has
+// not been removed since, so a caller never reuses the output of a removed input.
+func vfEncExec(out *zzverif.Out, permV bool, ops []vfEncOp) {
+	line := vfEncLine(permV, ops)
 	backend := &vfBackend{cfg: ml.CacheConfig{PermutedV: permV}, maxNodes: 8192}
 	c := NewEncoderCache()
 	c.Init(backend, ml.DTypeF16, 1, 16, 8)
 	defer c.Close()
-	var trace []string
+	seen := map[string]bool{}
 	fail := func(kind, detail string) {
-		out.L2(kind, "enc "+strings.Join(trace, " "), detail)
+		if !seen[kind] {
+			seen[kind] = true
+			out.L2(kind, line, detail)
+		}
 	}
-	cached, pos := false, int32(0)
-	last := map[int]int{} // layer -> id of the last Put
-	id := 0
-	for step := r.Range(3, 14); step > 0; step-- {
-		ctx := backend.NewContext()
-		switch r.Intn(3) {
-		case 0, 1: // forward with an image at a random index
-			n := r.Range(1, 4)
-			base := int32(r.Range(0, 20))
-			idx := r.Intn(n)
-			reserve := r.Chance(1, 5)
-			b := input.Batch{Positions: make([]int32, n), Sequences: make([]int, n), Multimodal: []input.MultimodalIndex{{Index: idx}}}
-			for i := range b.Positions {
-				b.Positions[i] = base + int32(i)
+	cached, pos, curPos, reserve := false, int32(0), int32(0), false
+	last := map[int]int{}
+	var obs []string
+	ctx := backend.NewContext()
+	for i, o := range ops {
+		switch o.kind {
+		case 'S':
+			b := input.Batch{Positions: make([]int32, o.a), Sequences: make([]int, o.a), Multimodal: []input.MultimodalIndex{{Index: o.c}}}
+			for k := range b.Positions {
+				b.Positions[k] = int32(o.b + k)
 			}
-			if err := c.StartForward(ctx, b, reserve); err != nil {
+			if err := c.StartForward(ctx, b, o.d != 0); err != nil {
 				fail("encoder-forward-error", err.Error())
 			}
-			put := r.Chance(4, 5)
-			trace = append(trace, fmt.Sprintf("F%d@%d+%d,reserve=%v,put=%v", n, base, idx, reserve, put))
-			if put {
-				id++
-				for l := 0; l < vfLayers; l++ {
-					c.SetLayer(l)
-					data := []float32{float32(id), float32(id), float32(id), float32(id), float32(id), float32(id)}
-					kt, _ := ctx.FromFloatSlice(data, 1, 2, 3)
-					vt, _ := ctx.FromFloatSlice(data, 1, 2, 3)
-					c.Put(ctx, kt, vt)
-					last[l] = id
+			curPos, reserve = int32(o.b+o.c), o.d != 0
+		case 'P':
+			for l := 0; l < vfLayers; l++ {
+				c.SetLayer(l)
+				data := make([]float32, 6)
+				for k := range data {
+					data[k] = float32(o.a)
 				}
-				if !reserve {
-					cached, pos = true, base+int32(idx)
-				}
+				kt, _ := ctx.FromFloatSlice(data, 1, 2, 3)
+				vt, _ := ctx.FromFloatSlice(data, 1, 2, 3)
+				c.Put(ctx, kt, vt)
+				last[l] = o.a
 			}
-		case 2:
-			bgn := int32(r.Range(0, 22))
-			end := bgn + int32(r.Range(0, 6))
-			if r.Chance(1, 3) {
-				end = math.MaxInt32
+			if !reserve {
+				cached, pos = true, curPos
 			}
-			trace = append(trace, fmt.Sprintf("R%d-%d", bgn, end))
-			if err := c.Remove(0, bgn, end); err != nil {
+		case 'R':
+			if err := c.Remove(0, int32(o.a), int32(o.b)); err != nil {
 				fail("encoder-remove-error", err.Error())
 			}
-			if cached && pos >= bgn && pos < end {
+			if cached && pos >= int32(o.a) && pos < int32(o.b) {
 				cached = false
 			}
 		}
 		if c.EncoderCached() != cached {
-			fail("encoder-cached-flag", fmt.Sprintf("EncoderCached()=%v, want %v (stored position %d)", c.EncoderCached(), cached, pos))
+			fail("encoder-cached-flag", fmt.Sprintf("op %d: EncoderCached()=%v, want %v (stored position %d)", i, c.EncoderCached(), cached, pos))
 		}
-		for l, want := range last {
+		ids := make([]int, vfLayers)
+		for l := 0; l < vfLayers; l++ {
 			c.SetLayer(l)
 			k, v, m := c.Get(ctx)
 			if m != nil {
 				fail("encoder-mask", "mask is not nil")
 			}
+			want, have := last[l]
+			if !have {
+				if k != nil || v != nil {
+					fail("encoder-stale-output", fmt.Sprintf("op %d layer %d: tensors before any Put", i, l))
+				}
+				continue
+			}
+			ids[l] = int(k.Floats()[0])
 			for _, t := range []ml.Tensor{k, v} {
 				for _, x := range t.Floats() {
 					if int(x) != want {
-						fail("encoder-stale-output", fmt.Sprintf("layer %d exposes data %v, last Put was %d", l, x, want))
+						fail("encoder-stale-output", fmt.Sprintf("op %d layer %d exposes data %v, last Put was %d", i, l, x, want))
 						break
 					}
 				}
 			}
 		}
-		if !c.CanResume(0, int32(r.Intn(30))) {
+		if !c.CanResume(0, int32(i)) {
 			fail("encoder-canresume", "CanResume is false")
 		}
-		ctx.Close()
+		obs = append(obs, fmt.Sprintf("cached=%v pos=%d l0=%d l1=%d", c.EncoderCached(), c.encoderPos, ids[0], ids[1]))
 	}
+	ctx.Close()
+	out.Case(line, strings.Join(obs, " | "))
 	out.Count("encoder_histories")
+	out.Count("cases")
+}
+
+func vfEncoder(out *zzverif.Out, r *zzverif.Rng) {
+	permV, ops := vfEncGen(r)
+	vfEncExec(out, permV, ops)
 	// more than one sequence must be refused at Init
 	func() {
 		defer func() {
 			if recover() == nil {
-				fail("encoder-multiseq-accepted", "Init(maxSequences=2) did not panic")
+				out.L2("encoder-multiseq-accepted", "enc 0 0", "Init(maxSequences=2) did not panic")
 			}
 		}()
-		NewEncoderCache().Init(backend, ml.DTypeF16, 2, 16, 8)
+		NewEncoderCache().Init(&vfBackend{maxNodes: 8192}, ml.DTypeF16, 2, 16, 8)
 	}()
 }
 
@@ -1873,6 +1969,11 @@ func TestVerifC06(t *testing.T) {
 		raw, err := os.ReadFile(rp)
 		if err != nil {
 			t.Fatal(err)
+		}
+		if ln := strings.TrimSpace(string(raw)); strings.HasPrefix(ln, "enc ") {
+			permV, ops := vfEncParse(ln)
+			vfEncExec(out, permV, ops)
+			return
 		}
 		cf, ops, err := vfParseHistory(strings.TrimSpace(string(raw)))
 		if err != nil {
